@@ -732,6 +732,8 @@ func c12Sort(r *core.Run, p *core.Program) {
 			}
 		})
 		r.Check(okCmp, rule, "worst-parent-by-rank", p.Pos(fw.Pos()), "the worst parent is the one with the greatest rank", "the worst parent is not chosen by comparing ranks")
+		why := c12RunningMax(fw, "client/txpool.OneTxToSend.SortRank")
+		r.Check(why == "", rule, "worst-parent-is-maximum", p.Pos(fw.Pos()), "the parent kept is replaced only by one with a greater rank (or when none was kept yet): the result is the worst-ranked parent", "the parent the insertion starts below is not the worst-ranked one: "+why)
 	}
 }
 
@@ -1130,4 +1132,97 @@ func c12MemInputCounters(r *core.Run, p *core.Program, rule string) {
 	sort.Strings(bad)
 	bad = dedupStrings(bad)
 	r.Check(len(bad) == 0 && n >= 1, rule, "pooled-input-counters", "-", fmt.Sprintf("%d local counter(s) compared with MemInputCnt; every increment is under MemInputs[i]", n), strings.Join(bad, "; "))
+}
+
+// c12RunningMax: fn walks candidates and keeps one in a loop-carried variable that is also its result.  The
+// kept one may be replaced only when none is kept yet (nil) or when the candidate's key field is greater
+// than the kept one's.  Returns "" when every replacement is justified that way.
+func c12RunningMax(fn *ssa.Function, field string) string {
+	var kept *ssa.Phi
+	for _, b := range fn.Blocks {
+		if an.LoopBody(b) == nil {
+			continue
+		}
+		for _, ins := range b.Instrs {
+			ph, ok := ins.(*ssa.Phi)
+			if !ok {
+				break
+			}
+			if _, isPtr := ph.Type().Underlying().(*types.Pointer); isPtr && types.Identical(ph.Type(), fn.Signature.Results().At(0).Type()) {
+				kept = ph
+			}
+		}
+	}
+	if kept == nil {
+		return "no loop-carried result"
+	}
+	head := kept.Block()
+	keyOf := func(v ssa.Value) ssa.Value { // v = *(&X.field): X
+		ld, ok := c17StripConv(v).(*ssa.UnOp)
+		if !ok || ld.Op != token.MUL {
+			return nil
+		}
+		fa, ok := ld.X.(*ssa.FieldAddr)
+		if !ok {
+			return nil
+		}
+		if f, _ := an.FieldOf(fa); f != field {
+			return nil
+		}
+		return fa.X
+	}
+	replaced := 0
+	for i, pr := range head.Preds {
+		cand := kept.Edges[i]
+		if cand == ssa.Value(kept) {
+			continue
+		}
+		if c, isC := cand.(*ssa.Const); isC && c.Value == nil {
+			continue
+		}
+		replaced++
+		accept := func(cs []an.DomCond) bool {
+			for _, dc := range cs {
+				x, y, rel, ok := dc.Cmp()
+				if !ok {
+					continue
+				}
+				if x == ssa.Value(kept) && rel == token.EQL {
+					if c, isC := y.(*ssa.Const); isC && c.Value == nil {
+						return true
+					}
+				}
+				kx, ky := keyOf(x), keyOf(y)
+				if kx == cand && ky == ssa.Value(kept) && (rel == token.GTR || rel == token.GEQ) {
+					return true
+				}
+				if kx == ssa.Value(kept) && ky == cand && (rel == token.LSS || rel == token.LEQ) {
+					return true
+				}
+			}
+			return false
+		}
+		var justified func(from, to *ssa.BasicBlock, d int) bool
+		justified = func(from, to *ssa.BasicBlock, d int) bool {
+			if accept(an.EdgeConds(from, to)) {
+				return true
+			}
+			if d > 4 || from == head || len(from.Preds) == 0 {
+				return false
+			}
+			for _, pp := range from.Preds {
+				if !justified(pp, from, d+1) {
+					return false
+				}
+			}
+			return true
+		}
+		if !justified(pr, head, 0) {
+			return "the kept parent is replaced on a path where the candidate's rank is not known to be greater"
+		}
+	}
+	if replaced == 0 {
+		return "the kept parent is never replaced"
+	}
+	return ""
 }
